@@ -350,6 +350,11 @@ func lineOnly(s string) string {
 // reports whether any value in the slice satisfies pred. Calls are opaque: the
 // result depends on all operands (incl. receiver).
 func DependsOn(v ssa.Value, pred func(ssa.Value) bool) bool {
+	return DependsOnCut(v, pred, nil)
+}
+
+// DependsOnCut is DependsOn that does not look behind values for which cut holds.
+func DependsOnCut(v ssa.Value, pred func(ssa.Value) bool, cut func(ssa.Value) bool) bool {
 	seen := map[ssa.Value]bool{}
 	depth := 0
 	var walk func(x ssa.Value) bool
@@ -358,6 +363,9 @@ func DependsOn(v ssa.Value, pred func(ssa.Value) bool) bool {
 			return false
 		}
 		seen[x] = true
+		if cut != nil && cut(x) {
+			return false
+		}
 		if pred(x) {
 			return true
 		}
